@@ -296,9 +296,10 @@ Example C17_message_path_escaped_live :
 Proof. exact all_paths_escaped. Qed.
 
 (* (9') Under the ISO modes (-std=c11, -std=c++14) trigraphs are replaced first: ??/ is a backslash.  Escaping
-   backslash and double quote alone leaves `a??/u` an invalid literal (finding F-OPTGUARD-TRIGRAPH, reproduced; fix
-   proposal design_notes/C17_trigraph_fix.patch adds ? -> \?).  Facts about the two chains, independent of the tree.
-   TO FLIP when the fix is landed: enable `C17_path_trigraph_safe_live` below and set the finding to fixed. *)
+   backslash and double quote alone leaves `a??/u` an invalid literal (finding F-OPTGUARD-TRIGRAPH, fixed by f2f61d1, which
+   adds the step ? -> backslash ?).  Facts about the two chains, independent of the tree; the live obligation is
+   C17_path_trigraph_safe_live below, and path_trigraph_ok / path_chain_expected (exactly the three-step chain) are
+   conjuncts of sides_agree. *)
 Theorem C17_escape_chain_facts :
   escape_quote_safe chain_bq = true /\ escape_trigraph_safe chain_bq = false /\
   lit_ok (detrigraph (apply_escape chain_bq [97; 63; 63; 47; 117])) = false /\
